@@ -168,6 +168,12 @@ def run_case(spec):
         tr = ['init=' + ini]
         W = np.einsum('ij,ik->jk', pos_diff, pos_diff)
         t = W.ravel().dot(A0.ravel()) / 100.0
+        R0, _ = reference_projection(A0, W, t)
+        if (W.ravel().dot(R0.ravel()) - t) / t >= 0.01:
+            # outside the property's domain ("max_proj large enough for one projection to converge"): the solver then
+            # never obtains a feasible iterate and hands back the initial matrix
+            return dict(evals=0, sigs=[], viol=[], states=0, transitions=0, stats={'skipped_first_projection_does_not_converge': 1},
+                        sample={'learner': 'MMC', 'dataset': dsn, 'init': ini, 'skipped': 'first projection does not converge in max_proj steps'})
         for tol_ in (1e-3, 1e-6):
           tr = ['init=' + ini, 'tol=%g' % tol_]
           prev = None
@@ -268,6 +274,12 @@ def run_case(spec):
             yc = np.asarray(cap.seen[0][1][0])
             A0, _ = priors.prior_matrix(np.array(pristine) if isinstance(pristine, np.ndarray) else pristine, Pc, d, seed=s)
             pd_, nd_ = Pc[yc == 1][:, 0] - Pc[yc == 1][:, 1], Pc[yc == -1][:, 0] - Pc[yc == -1][:, 1]
+            Ws = np.einsum('ij,ik->jk', pd_, pd_)
+            ts = Ws.ravel().dot(A0.ravel()) / 100.0
+            Rs, _ = reference_projection(A0, Ws, ts)
+            if (Ws.ravel().dot(Rs.ravel()) - ts) / ts >= 0.01:
+                stats['skipped_first_projection_does_not_converge'] = stats.get('skipped_first_projection_does_not_converge', 0) + 1
+                break         # same domain condition as above
             g = judge_full(site, est.get_mahalanobis_matrix(), A0, pd_, nd_, ['init=' + ini, 'supervised', 'max_iter=%d' % mi], viol, stats)
             if g is None:
                 break
